@@ -39,6 +39,16 @@ Proof.
   destruct hf as [a|]; [intro E; inversion E; right; split; reflexivity|discriminate].
 Qed.
 
+(* a program needs its horizon only at predict: given at fit, at predict or at both, the run is the
+   same - whatever the updates and whether or not they refit (in particular a refit BEFORE any
+   horizon has been seen succeeds); without any horizon predict is an error *)
+Lemma program_horizon leaf s ups refit h :
+  program_run leaf s ups refit None (Some h) = Ok (model_run leaf s ups refit h) /\
+  program_run leaf s ups refit (Some h) None = Ok (model_run leaf s ups refit h) /\
+  program_run leaf s ups refit (Some h) (Some h) = Ok (model_run leaf s ups refit h) /\
+  program_run leaf s ups refit None None = Err.
+Proof. repeat split. Qed.
+
 (* ---- cutoff -------------------------------------------------------------------------------------------- *)
 
 Lemma cutoff_after_fit s : cutoff (fit_state s) = last_time s.
